@@ -152,6 +152,18 @@ func init() {
 	addControl(Control{Prop: "C09", Name: "v2-borrow-sweep-drop-key", File: "x/liquidationsV2/keeper/liquidate.go",
 		Find: "\tliquidationOffsetHolder.AppId = offsetCounterId\n\tk.SetLiquidationOffsetHolder(ctx, types.VaultLiquidationsOffsetPrefix, liquidationOffsetHolder)\n\n\treturn nil\n}\n\nfunc (k Keeper) LiquidateIndividualBorrow(", Replace: "\tk.SetLiquidationOffsetHolder(ctx, types.VaultLiquidationsOffsetPrefix, liquidationOffsetHolder)\n\n\treturn nil\n}\n\nfunc (k Keeper) LiquidateIndividualBorrow(", Rule: "R09.3", Contains: "LiquidateBorrows offset key"})
 	// ---- C10 ----
+	addControl(Control{Prop: "C10", Name: "v2-elapsed-via-local", File: "x/auctionsV2/keeper/auctions.go",
+		Find:    "\ttimeElapsed := ctx.BlockTime().Sub(dutchAuction.StartTime)",
+		Replace: "\troundStart := dutchAuction.StartTime\n\ttimeElapsed := ctx.BlockTime().Sub(roundStart)", Negative: true})
+	addControl(Control{Prop: "C10", Name: "v2-elapsed-from-end-time", File: "x/auctionsV2/keeper/auctions.go",
+		Find:    "\ttimeElapsed := ctx.BlockTime().Sub(dutchAuction.StartTime)",
+		Replace: "\ttimeElapsed := ctx.BlockTime().Sub(dutchAuction.EndTime)", Rule: "R10.10", Contains: "UpdateDutchAuction"})
+	addControl(Control{Prop: "C10", Name: "v1-close-penalty-via-local", File: "x/auction/keeper/dutch.go",
+		Find:    "\tpenaltyCoin.Amount = dutchAuction.InflowTokenTargetAmount.Amount.Sub(burnToken.Amount)",
+		Replace: "\tcollected := dutchAuction.InflowTokenTargetAmount.Amount\n\tpenaltyCoin.Amount = collected.Sub(burnToken.Amount)", Negative: true})
+	addControl(Control{Prop: "C10", Name: "v1-close-penalty-whole-inflow", File: "x/auction/keeper/dutch.go",
+		Find:    "\tpenaltyCoin.Amount = dutchAuction.InflowTokenTargetAmount.Amount.Sub(burnToken.Amount)",
+		Replace: "\tpenaltyCoin.Amount = dutchAuction.InflowTokenTargetAmount.Amount", Rule: "R10.11", Contains: "CloseDutchAuction"})
 	addControl(Control{Prop: "C10", Name: "v1-close-drop-netfee", File: "x/auction/keeper/dutch.go",
 		Find: "\terr = k.collector.SetNetFeeCollectedData(ctx, dutchAuction.AppId, dutchAuction.AssetInId, penaltyCoin.Amount)\n\tif err != nil {\n\t\treturn err\n\t}\n", Replace: "", Nth: 1, Rule: "R10.3", Contains: "net-fee increase"})
 	// ---- C11 ----
